@@ -21,7 +21,7 @@ def Err.code : Err → Nat
   | .optionNotFound => 23 | .valueConversionError => 24
 
 /-- `KEY_FILE_NULL_VALUE`: the group name of group-less entries. -/
-def NONE : Str := bs "_none_"
+def NONE : Str := [0x5f, 0x6e, 0x6f, 0x6e, 0x65, 0x5f] /- "_none_" -/
 
 /-- One `struct file_entry`.  `value`, `cb`, `ca` are `none` for a NULL pointer. -/
 structure Entry where
